@@ -50,9 +50,11 @@ type vStore struct {
 	trace                 []string // lock events: "L:<key>", "U:<key>"
 	held                  map[string]bool
 	getNodeN              int
-	lockCalls, lockFailAt int     // the lockFailAt-th acquisition fails (0: none)
-	w                     *vWorld // fault injection / ledger (nil in the pure selection harnesses)
-	blocking              bool    // locks really exclude each other (concurrent harnesses)
+	lockCalls, lockFailAt int                         // the lockFailAt-th acquisition fails (0: none)
+	w                     *vWorld                     // fault injection / ledger (nil in the pure selection harnesses)
+	blocking              bool                        // locks really exclude each other (concurrent harnesses)
+	status                map[string]types.StatusMeta // workload id -> last status reported to the store
+	refusedStatus         map[string]bool             // status writes that were the injected store failure
 }
 
 type vLock struct {
